@@ -58,11 +58,12 @@ theorem setup_alOK (cfg : Cfg) : ∀ fuel, AlOK cfg (setup cfg fuel) := by
 `Action.execute` does not cut off at that depth. -/
 def ClosedAt (cfg : Cfg) (S : Nat → Name → Prop) : Prop :=
   ∀ d ∈ cfg.db.decls, ∀ k, S k d.name → cfg.maxDepth ≠ some k →
-    ∀ g n o j v x, (g, Act.dep n o j v x) ∈ d.table → S (k + 1) n
+    ∀ g n o j v x t, (g, Act.dep n o j v x t) ∈ d.table → S (k + 1) n
 
 /-- an environment invariant kept by everything done on behalf of a subject -/
 structure SubjInv (cfg : Cfg) (S : Nat → Name → Prop) (P : Env → Prop) : Prop where
-  apply : ∀ (fwd : Bool) (k : Nat) (d : Decl) (a : Act) (s : St), Canon cfg.db d → S k d.name → P s.env → P (a.apply fwd d.prod s).env
+  apply : ∀ (fwd : Bool) (k : Nat) (d : Decl) (a : Act) (s : St), Canon cfg.db d → a ∈ d.actions cfg.exact → S k d.name →
+    P s.env → P (a.apply fwd d.prod s).env
   record : ∀ (k : Nat) (d : Decl) (r : Option VroEnt) (s : St), Canon cfg.db d → S k d.name → P s.env → P (record d r s).env
   unrec : ∀ (k : Nat) (d : Decl) (e : Env), Canon cfg.db d → S k d.name → P e →
     P { e with dirs := aunset e.dirs d.name, recs := aunset e.recs d.name }
@@ -81,8 +82,8 @@ theorem acts_subj (cfg : Cfg) (S : Nat → Name → Prop) (P : Env → Prop) (hc
   | cons a rest ih =>
     have hl' : ∀ a ∈ rest, a ∈ d.actions cfg.exact := fun a hm => hl a (List.mem_cons_of_mem _ hm)
     intro s s' ha hp h
-    by_cases hdep : ∃ n o j v x, a = .dep n o j v x
-    · obtain ⟨n, o, j, v, x, rfl⟩ := hdep
+    by_cases hdep : ∃ n o j v x t, a = .dep n o j v x t
+    · obtain ⟨n, o, j, v, x, t, rfl⟩ := hdep
       simp only [acts] at h
       split at h
       · exact ih hl' s s' ha hp h
@@ -90,7 +91,7 @@ theorem acts_subj (cfg : Cfg) (S : Nat → Name → Prop) (P : Env → Prop) (hc
         have hmd : cfg.maxDepth ≠ some k := by
           intro e; apply hgo; simp [e]
         obtain ⟨g, hg⟩ := mem_actions d cfg.exact _ (hl _ (List.mem_cons_self))
-        have hSn : S (k + 1) n := hcl d (lookup_some cfg.db d.prod d hc).1 k hS hmd g n o j v x hg
+        have hSn : S (k + 1) n := hcl d (lookup_some cfg.db d.prod d hc).1 k hS hmd g n o j v x t hg
         split at h
         · rename_i s1 hr
           exact ih hl' s1 s' (hal _ _ _ _ _ _ _ _ _ ha (by rw [hr]; rfl)) (hrec _ _ _ _ _ _ _ _ _ hSn ha hp hr) h
@@ -105,9 +106,9 @@ theorem acts_subj (cfg : Cfg) (S : Nat → Name → Prop) (P : Env → Prop) (hc
           split at h
           · cases h
           · exact ih hl' ⟨s.env, s.aliases, s.unaliased, s1.already⟩ s' h1 hp h
-    · have hnd : ∀ n o j v x, a ≠ .dep n o j v x := fun n o j v x e => hdep ⟨n, o, j, v, x, e⟩
+    · have hnd : ∀ n o j v x t, a ≠ .dep n o j v x t := fun n o j v x t e => hdep ⟨n, o, j, v, x, t, e⟩
       rw [acts_cons_nondep rec cfg fwd k noRec vro d a rest s hnd] at h
-      exact ih hl' _ s' (by simpa using ha) (hP.apply fwd k d a s hc hS hp) h
+      exact ih hl' _ s' (by simpa using ha) (hP.apply fwd k d a s hc (hl a (List.mem_cons_self)) hS hp) h
 
 theorem install_subj (cfg : Cfg) (S : Nat → Name → Prop) (P : Env → Prop) (hcl : ClosedAt cfg S)
     (hP : SubjInv cfg S P) (rec : Rec) (hal : AlOK cfg rec) (hrec : SubjSpec cfg S P rec) (k : Nat)
